@@ -88,6 +88,31 @@ CLAIMED["C11"] = (
     "Trusted: Lean kernel (+propext, Classical.choice, Quot.sound); the hand-written model; the pandas window reductions are abstract in the theorems (concrete ones only in the driver); floating point outside the model (exact data; ewm compared at 1e-9 relative).",
 )
 
+CLAIMED["C05"] = (
+    "DESIGN.md section 5, C05",
+    "Lean 4 theorems (ghost holder count; invariant count = holders preserved by every top-level operation, for all 18 node kinds) over the reference-counting part of the dataflow model + deterministic differential correspondence of counts and callbacks after every operation + balance oracle on asynchronous pipelines at the final quiescent point",
+    "Proof: every kind's update program is balanced (every_update_balanced), count - holders is invariant under _emit (excess_preserved), hence at every quiescent point count = number of legitimate holders (node buffers, unfinished consumers, suspended flushes) for every sequence of operations (count_eq_holders, count_eq_holders_always), counts are never negative at any prefix of a run (nonneg), the callback fires exactly when the count reaches zero (fire_iff_zero, fired_when_zero), never rises again (count_no_resurrection, completed_stays_completed), and dropped elements end at zero with the callback fired (dropped_is_zero). Asynchronous holding nodes: per-node models (Props/Async*.lean, C13, C14) and the model-free balance oracle.",
+    "Trusted: Lean kernel (+propext, Classical.choice, Quot.sound); the hand-written model; node invariants (e.g. zip without a repeated upstream, sliding_window n >= 1); runs in which a user function raised are excluded from the balance oracle (retains of aborted frames stay, by design).",
+)
+CLAIMED["C04"] = (
+    "DESIGN.md section 5, C04",
+    "Lean 4 theorems on the dataflow model (state-at-the-moment-of-the-signal via a run relation tagged with intermediate states) + per-node event-loop models for the asynchronous holders + deterministic differential of callbacks/counts with failing functions, consumers and map_async jobs + model-free holder oracle on asynchronous pipelines",
+    "Proof (synchronous nodes, asynchronous consumers, partition's suspended flush): at every completion signal the count is 0, the rest of the operation never touches the reference, no pending consumer and no suspended flush carries it and no node other than the one executing the release holds it (sync_never_early, sync_never_early_moment), a pending consumer blocks the signal (sync_pending_consumer_blocks), signals fire once (sync_fires_once); failed elements never fire (C16: failed_never_fires_*). Asynchronous holders (rate_limit, delay, buffer, map_async, timed windows, latest, zip with maxsize): node-group theorems `c04_*` where delivered, otherwise the model-free oracle (no callback while the entry sits in a holding node or an unfinished consumer; no callback for an element whose job or consumer failed).",
+    "Trusted: Lean kernel (+propext, Classical.choice, Quot.sound); the hand-written models; 'derived from' = carries the metadata entry; holders evaluated when the loop has settled after the operation in which the callback fired.",
+)
+CLAIMED["C14"] = (
+    "DESIGN.md section 5, C14",
+    "Lean 4 theorems over a labelled transition system of latest that keeps the wake-up mechanism explicit (slot, pending notify callbacks, coroutine state; invariant over every accepted action sequence) + trace-acceptance correspondence in one-handle step mode (arrivals placed between a notify callback and the coroutine's resumption), exhaustive interleavings of <= 4/5 arrivals",
+    "Proof: deliveries are a strictly increasing subsequence of the arrivals (deliveries_subsequence_of_arrivals, deliveries_strictly_increasing), a full slot with a waiting coroutine always has a notify pending (no_lost_wakeup), in every quiescent state with the consumer free the newest arrival has been delivered, and arrival-free continuations are bounded so that state is reached (newest_delivered_at_quiescence, arrival_free_runs_are_bounded, newest_delivered_after_input_stops). The original mechanism is kept as a second model: both negations proved on witnesses, and on a tree without the fix every rejected trace is accepted by it.",
+    "Trusted: Lean kernel (+propext, Classical.choice, Quot.sound); the hand-written model of tornado Condition.notify / add_callback order; CPython 3.12 asyncio internals used by the stepping loop.",
+)
+CLAIMED["C06"] = (
+    "DESIGN.md section 5, C06",
+    "Lean 4 theorems (monoid-homomorphism facts over exact rationals, finite maps for groupby) over a hand-written model of every Aggregation's initial/on_new and of the per-batch expression layer + two-level differential correspondence (Aggregation objects directly; the full streaming DataFrame API) against the model and against pandas on the concatenated prefix",
+    "Proof: for every batch list and every k the k-th emission of sum, count, size, mean, var (two-moment formula = textbook variance, ddof 0/1), std, value_counts and groupby sum/count/size/mean/var/std (column or streaming-series grouper; NaN keys dropped, vanished keys kept) equals the specified pandas aggregation of the concatenation of the first k batches (…_stream_eq_pandas), var raises exactly when the prefix has no row, element-wise expressions, filters, selection and assignment give per batch what pandas gives (expr_/mask_/pipeline_stream_eq_pandas_per_batch) and compose end to end (pipeline_prefix_concat, mean_of_pipeline_eq_pandas). The pre-fix Mean is kept with its witness ([] then [1,2,3]).",
+    "Trusted: Lean kernel (+propext, Classical.choice, Quot.sound); the hand-written model; pandas reductions specified by textbook definitions over Option Rat; floating point outside the model (small-integer data, quotients within 1 ulp / 1e-9); the diamond zip of derived streams is C01's diamond_zip.",
+)
+
 NOT_YET = {}
 
 
